@@ -10,7 +10,9 @@
 (* commit state of the addressed node, the server mode and the caller's    *)
 (* privilege.  Table is the complete decision table; the harness expands   *)
 (* every row into the concrete (datatype, keyword, method) requests that   *)
-(* the source tree serves and replays them on a committed node.            *)
+(* the source tree serves and replays them on a committed node.  The       *)
+(* commands of the RPC path (scope "rpc") are request classes too: each is *)
+(* decided like its HTTP twin, and no command can carry the admin token.   *)
 (*                                                                         *)
 (* Part 2 is a state machine over a small version DAG with one versioned   *)
 (* datum, node notes/logs and a second data instance: every request class  *)
@@ -63,17 +65,39 @@ NodeClasses ==
 RepoClasses ==
     {[scope |-> "repo", method |-> m, action |-> a, versioned |-> TRUE, declared |-> FALSE, blob |-> FALSE] :
         m \in Methods, a \in RepoActions}
-RequestClasses == InstanceClasses \cup NodeClasses \cup RepoClasses
+
+\* Commands of the RPC path ("dvid node <uuid> <data> <command> ...", "dvid repo <uuid> <command> ...",
+\* server/rpc.go handleCommand and the datatypes' DoRPC).  A command has no HTTP method ("CMD") and
+\* cannot carry an admin token.  action is what the command does:
+\*   data-write    a datatype command that writes the instance's data at the addressed version
+\*                 (keyvalue put, neuronjson put / import-kv / ingest-neuronjson, load of image or label
+\*                 slices, annotation reload, imagetile generate, ...)
+\*   data-read     a datatype command that writes nothing at the version (help, dumps, unknown commands)
+\*   new-instance  repo <uuid> new <type> <name>             (twin of POST /api/repo/<uuid>/instance)
+\*   child         repo <uuid> branch | newversion | merge    (twins of POST /api/node/<uuid>/branch ...)
+\*   repo-admin    repo <uuid> rename | delete | copy ...     (whole instances / repo metadata, no version)
+\*   read          help, types, storage-details
+RpcActions == {"data-write", "data-read", "new-instance", "child", "repo-admin", "read"}
+RpcClasses ==
+    {[scope |-> "rpc", method |-> "CMD", action |-> a, versioned |-> vs, declared |-> FALSE, blob |-> FALSE] :
+        a \in RpcActions, vs \in BOOLEAN}
+RequestClasses == InstanceClasses \cup NodeClasses \cup RepoClasses \cup RpcClasses
 
 PrivOf(ts, tok) == ts /\ tok = "right"
+\* the privilege a request of class rq gets from presenting tok: the RPC path has no token
+PrivFor(rq, ts, tok) == rq.scope # "rpc" /\ PrivOf(ts, tok)
 
-GateReadOnly(rq, md, pv) == md = "readonly" /\ ~pv /\ ~ReadMethod(rq.method)
+\* Read-only mode is defined for the HTTP API ("ignores all HTTP requests but GET and HEAD",
+\* server/server.go); what C02 requires of a command is the commit gate, in every mode.
+GateReadOnly(rq, md, pv) == md = "readonly" /\ ~pv /\ rq.scope # "rpc" /\ ~ReadMethod(rq.method)
 
 GateLocked(rq, locked, md, pv) ==
     /\ locked /\ md # "fullwrite" /\ ~pv
     /\ \/ rq.scope = "instance" /\ rq.versioned /\ ~rq.blob /\ rq.declared
        \/ rq.scope = "node" /\ ~ReadMethod(rq.method) /\ rq.action \notin ChildActions
        \/ rq.scope = "repo" /\ rq.action = "instance" /\ ~ReadMethod(rq.method)
+       \/ rq.scope = "rpc" /\ rq.action = "data-write" /\ rq.versioned
+       \/ rq.scope = "rpc" /\ rq.action = "new-instance"
 
 Outcome(rq, locked, md, pv) ==
     IF GateReadOnly(rq, md, pv) THEN "refused-readonly"
@@ -85,14 +109,15 @@ Exception(md, pv) == md = "fullwrite" \/ pv
 
 \* creating child versions of a committed node stays allowed
 ChildAllowed(rq, locked, md, pv) ==
-    rq.scope = "node" /\ rq.action \in ChildActions /\ rq.method = "POST" /\ locked /\ (md # "readonly" \/ pv)
+    \/ rq.scope = "node" /\ rq.action \in ChildActions /\ rq.method = "POST" /\ locked /\ (md # "readonly" \/ pv)
+    \/ rq.scope = "rpc" /\ rq.action = "child" /\ locked
 
 Table ==
     {[rq |-> rq, locked |-> l, mode |-> md, tokenset |-> ts, tok |-> tk,
-      out |-> Outcome(rq, l, md, PrivOf(ts, tk)),
-      exc |-> Exception(md, PrivOf(ts, tk)),
-      frozen |-> l /\ ~Exception(md, PrivOf(ts, tk)),
-      child |-> ChildAllowed(rq, l, md, PrivOf(ts, tk))] :
+      out |-> Outcome(rq, l, md, PrivFor(rq, ts, tk)),
+      exc |-> Exception(md, PrivFor(rq, ts, tk)),
+      frozen |-> l /\ ~Exception(md, PrivFor(rq, ts, tk)),
+      child |-> ChildAllowed(rq, l, md, PrivFor(rq, ts, tk))] :
         rq \in RequestClasses, l \in BOOLEAN, md \in Modes, ts \in BOOLEAN, tk \in Tokens}
 
 \* Claims about the table itself
@@ -108,9 +133,33 @@ Claim_WrongTokenIsNoToken ==
                          /\ q.tokenset = r.tokenset /\ q.out = r.out /\ q.exc = r.exc
 Claim_ExceptionsNeverLockedRefused ==
     \A r \in Table : r.exc => r.out # "refused-locked"
+\* the RPC path has no token: the row of a command does not depend on what is presented
+Claim_RpcHasNoToken ==
+    \A r \in Table : r.rq.scope = "rpc" =>
+        /\ (r.exc <=> r.mode = "fullwrite")
+        /\ \A q \in Table : (q.rq = r.rq /\ q.locked = r.locked /\ q.mode = r.mode) => q.out = r.out
+\* every command is decided like its HTTP twin sent without a token (in read-only mode: like the
+\* twin on a server in default mode)
+RpcTwin(rq) ==
+    CASE rq.action = "data-write"   -> [scope |-> "instance", method |-> "POST", action |-> "", versioned |-> rq.versioned, declared |-> TRUE, blob |-> FALSE]
+      [] rq.action = "data-read"    -> [scope |-> "instance", method |-> "GET", action |-> "", versioned |-> rq.versioned, declared |-> FALSE, blob |-> FALSE]
+      [] rq.action = "new-instance" -> [scope |-> "repo", method |-> "POST", action |-> "instance", versioned |-> TRUE, declared |-> FALSE, blob |-> FALSE]
+      [] rq.action = "child"        -> [scope |-> "node", method |-> "POST", action |-> "newversion", versioned |-> TRUE, declared |-> FALSE, blob |-> FALSE]
+      [] rq.action = "repo-admin"   -> [scope |-> "repo", method |-> "POST", action |-> "other", versioned |-> TRUE, declared |-> FALSE, blob |-> FALSE]
+      [] OTHER                      -> [scope |-> "repo", method |-> "GET", action |-> "info", versioned |-> TRUE, declared |-> FALSE, blob |-> FALSE]
+Claim_RpcDecidedLikeHTTPTwin ==
+    \A r \in Table : r.rq.scope = "rpc" =>
+        \E q \in Table : /\ q.rq = RpcTwin(r.rq) /\ q.tok = "none" /\ q.locked = r.locked
+                         /\ q.mode = (IF r.mode = "readonly" THEN "default" ELSE r.mode)
+                         /\ q.tokenset = r.tokenset /\ q.out = r.out /\ q.child = r.child /\ q.frozen = r.frozen
+\* every command that writes versioned data at a committed version is refused unless the server runs full-write
+Claim_RpcWritesRefusedWhenCommitted ==
+    \A r \in Table : (r.rq.scope = "rpc" /\ r.locked /\ r.mode # "fullwrite"
+                        /\ (r.rq.action = "new-instance" \/ (r.rq.action = "data-write" /\ r.rq.versioned))) => r.out # "pass"
 TableClaims ==
     /\ Claim_ChildCreationNotGated /\ Claim_ReadsPass /\ Claim_TokenNeedsServerToken
     /\ Claim_WrongTokenIsNoToken /\ Claim_ExceptionsNeverLockedRefused
+    /\ Claim_RpcHasNoToken /\ Claim_RpcDecidedLikeHTTPTwin /\ Claim_RpcWritesRefusedWhenCommitted
 
 (***************************************************************************)
 (* Part 2: the state machine                                               *)
@@ -134,6 +183,7 @@ View == <<nn, par, lk, ent, meta, other, mode, cfg>>
 Nodes == 1..nn
 Content(v) == KV!Read(par, ent, v)         \* what a read of the datum at v returns (0 none, -1 conflict)
 Priv(tok) == PrivOf(TokenSet, tok)
+PrivRq(rq, tok) == PrivFor(rq, TokenSet, tok)
 
 Rec(r) == IF HistLen > 0 THEN Append(hist, r) ELSE hist
 
@@ -156,7 +206,16 @@ Fresh(v) == IF Content(v) = 1 THEN 2 ELSE 1
 \* Assumption A1 (checked on the real code by state comparison, not trusted): a handler
 \* that changes versioned data is declared a mutation request by its datatype.
 Handler(rq, v) ==
-    CASE rq.scope = "instance" /\ rq.versioned /\ ~rq.blob /\ rq.declared /\ ~ReadMethod(rq.method) ->
+    CASE rq.scope = "rpc" /\ rq.action = "data-write" /\ rq.versioned ->
+            /\ ent' = [n \in (DOMAIN ent) \cup {v} |-> IF n = v THEN Fresh(v) ELSE ent[n]]
+            /\ UNCHANGED <<nn, par, lk, meta, other>>
+      [] rq.scope = "rpc" /\ rq.action = "child" /\ lk[v] /\ nn < MaxNodes ->
+            /\ AddChild(<<v>>)
+            /\ UNCHANGED <<ent, other>>
+      [] rq.scope = "rpc" /\ rq.action = "new-instance" /\ other = "absent" ->
+            /\ other' = "present"
+            /\ UNCHANGED <<nn, par, lk, ent, meta>>
+      [] rq.scope = "instance" /\ rq.versioned /\ ~rq.blob /\ rq.declared /\ ~ReadMethod(rq.method) ->
             /\ ent' = [n \in (DOMAIN ent) \cup {v} |->
                           IF n = v THEN (IF rq.method = "DELETE" THEN 0 ELSE Fresh(v)) ELSE ent[n]]
             /\ UNCHANGED <<nn, par, lk, meta, other>>
@@ -175,9 +234,9 @@ Handler(rq, v) ==
       [] OTHER -> UNCHANGED <<nn, par, lk, ent, meta, other>>   \* reads, unversioned data, blobs, repo metadata, refusals by the handler
 
 Request(rq, v, tok) ==
-    LET out == Outcome(rq, lk[v], mode, Priv(tok))
+    LET out == Outcome(rq, lk[v], mode, PrivRq(rq, tok))
         rec == [op |-> "req", rq |-> rq, v |-> v, tok |-> tok, mode |-> mode, locked |-> lk[v],
-                out |-> out, exc |-> Exception(mode, Priv(tok)), nn2 |-> nn', lk2 |-> lk']
+                out |-> out, exc |-> Exception(mode, PrivRq(rq, tok)), nn2 |-> nn', lk2 |-> lk']
     IN  /\ IF out = "pass" THEN Handler(rq, v) ELSE UNCHANGED <<nn, par, lk, ent, meta, other>>
         /\ last' = rec /\ hist' = Rec(rec)
         /\ UNCHANGED <<mode, cfg>>
@@ -188,7 +247,9 @@ Effective ==
         \/ rq.scope = "instance" /\ rq.versioned /\ ~rq.blob /\ rq.declared /\ rq.method \in {"POST", "DELETE"}
         \/ rq.scope = "node" /\ rq.method = "POST" /\ rq.action \in {"commit", "newversion"}
         \/ rq.scope = "node" /\ rq.method = "POST" /\ rq.action = "note" /\ EffNote
-        \/ rq.scope = "repo" /\ rq.method = "POST" /\ rq.action = "instance"}
+        \/ rq.scope = "repo" /\ rq.method = "POST" /\ rq.action = "instance"
+        \/ rq.scope = "rpc" /\ rq.action = "data-write" /\ rq.versioned
+        \/ rq.scope = "rpc" /\ rq.action \in {"child", "new-instance"} /\ rq.versioned}
 
 \* POST /api/repo/<root>/merge of two committed nodes
 Merge(p, q) ==
